@@ -69,12 +69,39 @@ class Chain:
     pass
 
 
-def build(ctx, rng, n, with_refund):
+def related_seed(rng, seed):
+    """a DIFFERENT seed that an implementation which pads, truncates,
+    pre-hashes or re-interprets its seed could confuse with `seed`"""
+    import hashlib as _h
+    k = rng.choice(('nul', 'nuls', 'pad64', 'strip', 'digest', 'bitflip',
+                    'prefix0', 'drop-last', 'double', 'case'))
+    out = {
+        'nul': seed + b'\x00', 'nuls': seed + bytes(rng.randrange(2, 40)),
+        'pad64': seed + bytes(max(1, 64 - len(seed))),
+        'strip': seed.rstrip(b'\x00'), 'digest': _h.sha256(seed).digest(),
+        'bitflip': bytes([seed[0] ^ 1]) + seed[1:] if seed else b'\x01',
+        'prefix0': b'\x00' + seed, 'drop-last': seed[:-1],
+        'double': seed + seed, 'case': seed.swapcase(),
+    }[k]
+    if out == seed:
+        out, k = seed + b'\x00', 'nul'
+    return out, k
+
+
+def build(ctx, rng, n, with_refund, seed=None):
     functions, parsing, tools, _, _ = env.mods()
     from tapescript.AMHL import AMHL
     c = Chain()
     c.n = n
-    c.seed = rbytes(rng, rng.choice((16, 32)))
+    if seed is None:
+        # any byte string is a seed: short, long (beyond a hash block), with
+        # trailing zero bytes, all zero
+        r = rng.random()
+        seed = rbytes(rng, rng.choice((16, 32))) if r < 0.6 else \
+            rbytes(rng, rng.choice((1, 5, 63, 64, 65, 100, 200))) if r < 0.8 \
+            else rbytes(rng, rng.choice((3, 16, 31))) + bytes(rng.choice((1, 2, 33))) \
+            if r < 0.93 else bytes(rng.choice((1, 8, 32, 64)))
+    c.seed = seed
     c.seeds = [rbytes(rng, 32) for _ in range(n)]
     c.pks = [sigmsg.pubkey(s) for s in c.seeds]
     from ..gen import auth as _auth
@@ -311,9 +338,18 @@ def judge_chain(ctx, rng, j):
     n = rng.choice((2, 2, 3, 3, 4, 4, 5, 6, 7, 8))
     with_refund = rng.random() < 0.4
     c = build(ctx, rng, n, with_refund)
-    other = build(ctx, rng, rng.choice((2, 3)), False)
+    # the other chain: an unrelated seed, or one that differs from this
+    # chain's seed only by padding / truncation / hashing / one bit
+    if rng.random() < 0.5:
+        oseed, rel = related_seed(rng, c.seed)
+        other = build(ctx, rng, rng.choice((2, 3, n, n)), False, seed=oseed)
+    else:
+        rel = 'unrelated'
+        other = build(ctx, rng, rng.choice((2, 3)), False)
+    ctx.tab('other_chain_seed', rel)
     case = {'kind': 'chain', 'n': n, 'seed': c.seed, 'seeds': c.seeds,
-            'refund_hops': sorted(c.refund_seeds)}
+            'refund_hops': sorted(c.refund_seeds), 'other_seed': other.seed,
+            'other_n': other.n}
     ctx.tab('chain_length', n)
     if not judge_setup(ctx, c, case):
         return
@@ -389,7 +425,8 @@ def replay(case, ctx):
     for i in range(c.n):
         acc = (acc + int.from_bytes(c.y[i], 'little')) % L
         c.K.append(acc)
-    other = build(ctx, rng, 2, False)
+    other = build(ctx, rng, case.get('other_n', 2), False,
+                  seed=case.get('other_seed'))
     if judge_setup(ctx, c, case) and judge_cascade(ctx, c, case, other):
         if 'history' in case:
             judge_history(ctx, c, case, tuple(case['history']))
